@@ -6,7 +6,7 @@
      X <id> <fsd> <chd> <fse> <che> <mode 0 CELT-only | 1 hybrid> <seed> | tok tok ...
    tokens
      dN  frame duration in 2.5 ms units (1 2 4 8 16 24)         bN  bitrate             vN  0 CBR 1 VBR 2 constrained VBR
-     xN  complexity      sN  signal family (0 silence 1 harmonic 2 noise 3 clicks 4 sweep 5 loud/quiet harmonic)
+     xN  complexity      sN  signal family (0 silence 1 harmonic 2 noise 3 clicks 4 sweep 5 loud/quiet harmonic 6 bright pulse train)
      pN  expected loss percentage (encoder)                       wN  bandwidth 1101..1105
      eN  N frames encoded and decoded                             lN  N frames encoded, each one lost: opus_decode(NULL, its duration)
      LN  one concealment call of N units (2.5 ms) with no frame consumed (odd sizes)
@@ -159,6 +159,7 @@ static void gen(float *pcm, int n, int ch, int fs, int fam)
                 v *= 0.25; if (fam == 5 && ((long)(t * 4) & 1)) v *= 0.02; } break;
       case 2: v = 0.3 * (hx_unit(&g_sig) * 2 - 1); break;
       case 3: v = 0.003 * (hx_unit(&g_sig) * 2 - 1); if (g_n % (fs / 25) < 24) v += 0.7 * (hx_unit(&g_sig) * 2 - 1); break;
+      case 6: { int h; g_ph += 2 * M_PI * g_f0 / fs; for (h = 1; h <= 80; h++) if (h * g_f0 < fs * 0.45) v += sin(h * g_ph); v *= 0.02; } break;   /* bright pulse train: high-frequency energy moves the tapset decision */
       case 4: g_ph += 2 * M_PI * (200 + 1800 * fabs(sin(t * 1.7))) / fs; v = 0.3 * sin(g_ph) + 0.15 * sin(2 * g_ph); break;
       default: v = 0;
       }
